@@ -191,6 +191,8 @@ struct TickEvents(Vec<u32>);
 struct Cfg {
     mismatch: Option<usize>,
     rel: bool,
+    /// `ChildOf` is replicated (component kind 5): client-side despawns are recursive over the hierarchy
+    hier: bool,
     policy: String,
     auth: String,
     track: bool,
@@ -229,6 +231,9 @@ fn add_common(app: &mut App, cfg: &Cfg, server_side: bool) {
         .replicate_once::<O>()
         .replicate::<R>()
         .replicate_periodic::<P>(2);
+    if cfg.hier {
+        app.replicate::<ChildOf>();
+    }
     app.add_server_event::<SE0>(Channel::Ordered)
         .add_server_event::<SEI>(Channel::Ordered)
         .make_event_independent::<SEI>()
@@ -290,6 +295,13 @@ fn insert_kind(world: &mut World, e: Entity, kind: usize, v: &Val) {
         4 => {
             em.insert(P(n));
         }
+        5 => {
+            if let Some(t) = target {
+                if t != e {
+                    em.insert(ChildOf(t));
+                }
+            }
+        }
         _ => {}
     }
 }
@@ -330,6 +342,13 @@ fn mutate_kind(world: &mut World, e: Entity, kind: usize, v: &Val) {
                 c.0 = n;
             }
         }
+        5 => {
+            if let (true, Some(t)) = (em.contains::<ChildOf>(), target) {
+                if t != e {
+                    em.insert(ChildOf(t));
+                }
+            }
+        }
         _ => {}
     }
 }
@@ -351,6 +370,9 @@ fn remove_kind(world: &mut World, e: Entity, kind: usize) {
         }
         4 => {
             em.remove::<P>();
+        }
+        5 => {
+            em.remove::<ChildOf>();
         }
         _ => {}
     }
@@ -657,7 +679,7 @@ impl Sim {
     fn decode_val(&self, kind: usize, data: &mut Bytes) -> Option<String> {
         match kind {
             0 | 1 | 2 | 4 => postcard_utils::from_buf::<u32, _>(data).ok().map(vstr),
-            3 => {
+            3 | 5 => {
                 let bits: u64 = postcard_utils::from_buf(data).ok()?;
                 let e = Entity::try_from_bits(bits).ok()?;
                 Some(format!("r{}", self.sid(e)))
@@ -985,6 +1007,9 @@ impl Sim {
             if let Some(a) = er.get::<P>() {
                 cs.push(format!("4={}", a.0));
             }
+            if let Some(a) = er.get::<ChildOf>() {
+                cs.push(format!("5=r{}", table.rev.get(&a.0).map(|i| i.to_string()).unwrap_or("?".into())));
+            }
             items.push(format!("{id}:{}", cs.join("+")));
         }
         Some(join(items.into_iter()))
@@ -1060,6 +1085,9 @@ impl Sim {
             }
             if let Some(a) = er.get::<P>() {
                 cs.push(format!("4={}", a.0));
+            }
+            if let Some(a) = er.get::<ChildOf>() {
+                cs.push(format!("5=r{}", to_server.get(&a.0).map(|s| sid(s)).unwrap_or("?".into())));
             }
             let h = match er.get::<ConfirmHistory>() {
                 Some(h) => format!("{}/{:x}", h.last_tick().get(), h.mask()),
@@ -1253,7 +1281,7 @@ fn join(items: impl Iterator<Item = String>) -> String {
 }
 
 fn parse_val(kind: usize, s: &str) -> Val {
-    if kind == 3 { Val::Ref(s.trim_start_matches('r').parse().unwrap()) } else { Val::Nat(s.parse().unwrap()) }
+    if kind == 3 || kind == 5 { Val::Ref(s.trim_start_matches('r').parse().unwrap()) } else { Val::Nat(s.parse().unwrap()) }
 }
 
 fn parse_kv(s: &str) -> (usize, Val) {
@@ -1287,7 +1315,7 @@ fn parse_sop(t: &[&str]) -> Option<Sop> {
 }
 
 fn parse_cfg(line: &str) -> Cfg {
-    let mut cfg = Cfg { mismatch: None, rel: false, policy: "all".into(), auth: "none".into(), track: false, timeout_ms: 10_000, nclients: 1 };
+    let mut cfg = Cfg { mismatch: None, rel: false, hier: false, policy: "all".into(), auth: "none".into(), track: false, timeout_ms: 10_000, nclients: 1 };
     for kv in line.split_whitespace().skip(1) {
         let Some((k, v)) = kv.split_once('=') else { continue };
         match k {
@@ -1297,6 +1325,7 @@ fn parse_cfg(line: &str) -> Cfg {
             "timeout" => cfg.timeout_ms = v.parse().unwrap(),
             "nclients" => cfg.nclients = v.parse().unwrap(),
             "rel" => cfg.rel = v == "1",
+            "hier" => cfg.hier = v == "1",
             "mismatch" => cfg.mismatch = v.parse().ok(),
             _ => {}
         }
